@@ -23,6 +23,14 @@ CALLBACK = {'requested': 'call_ll_connection_requested', 'attempt_timeout': 'cal
 def run(chk, facts, tier):
     chk.rule('single-event-fifo', 'all connection events (lifecycle and procedure results) travel through one ring: every try_push / try_pop inside connection_callbacks names the same member, so the application '
              'sees them in the order they happened (no callback after connection_closed)', floor=1)
+    chk.rule('events-drained', 'handle_connection_events pops until the ring is empty: the loop condition is the try_pop call alone (no budget, no other test), so every queued event - including connection_closed - is delivered at the end of the connection event that queued it', floor=1)
+    for fn in variants(facts, 'bluetoe::link_layer::connection_callbacks::handle_connection_events', chk):
+        loops = [n for n in fn.body.walk() if n.k in ('WhileStmt', 'ForStmt', 'DoStmt') and any(c.cn == 'try_pop' for c in (n.child('cond').calls() if n.child('cond') is not None else []))]
+        if not chk.require(len(loops) == 1, 'handle_connection_events: the loop around events_.try_pop() was not found (idiom not recognised)'):
+            continue
+        c = strip_casts(loops[0].child('cond'))
+        ok = c.is_call('try_pop')
+        chk.instance('events-drained', fn, 'while ( events_.try_pop( data ) )', ok, '' if ok else 'the loop stops under (%s) before the ring is empty: events queued in this connection event (connection_closed after a burst) are delivered at the next connection event, or never' % c.text()[:70], node=loops[0], key='drain loop')
     rings = {}
     for fn in facts.functions:
         if fn.kind == 'pattern' and fn.q.startswith('bluetoe::link_layer::connection_callbacks::'):
